@@ -208,7 +208,7 @@ def blocks_on_chunk(kind, k, strand):
     return fn
 
 
-def utr_on_chunk(shape, strand):
+def utr_on_chunk(shape, strand, chunk_strand=PLUS):
     """UTRs of a coding transcript built on a chunk: exactly the whole-chromosome UTR bases that lie inside the window (chunk coordinates), whatever the
     window cuts off the transcript or the CDS; shape = which exons hold the CDS start / end. Realised leg: the solver enumerates the layouts, the body
     compares every position natively."""
@@ -227,23 +227,26 @@ def utr_on_chunk(shape, strand):
         cs, ce = ex[first][0] + ca, ex[last][1] - cb
         cds = [(cs, ce)] if first == last else [(cs, ex[0][1]), (ex[1][0], ce)]
         args = ([e[0] for e in ex], [e[1] for e in ex], strand, [c[0] for c in cds], [c[1] for c in cds], [CDSFrame.ZERO] * len(cds))
-        chunk = TranscriptInterval(*args, guid=46, parent_or_seq_chunk_parent=chunk_parent(w, L))
+        chunk = TranscriptInterval(*args, guid=46, parent_or_seq_chunk_parent=chunk_parent(w, L, strand=chunk_strand))
         exon_pos = [q for a, b in ex for q in range(a, b) if w <= q < w + L]
         want5 = [q for q in exon_pos if (q < cs if strand is PLUS else q >= ce)]
         want3 = [q for q in exon_pos if (q >= ce if strand is PLUS else q < cs)]
+        # chunk coordinate of a chromosome position, and the transcript's strand as seen from the chunk
+        cpos = (lambda q: q - w) if chunk_strand is PLUS else (lambda q: w + L - 1 - q)
+        rel_strand = strand if chunk_strand is PLUS else strand.reverse()
         for got, want in ((chunk.get_5p_interval(), want5), (chunk.get_3p_interval(), want3)):
             if got is EmptyLocation() or got.is_empty:
                 if want:
                     return False
                 continue
-            if sorted(q + w for a, b in blocks_of(got) for q in range(a, b)) != want or got.strand is not strand:
+            if sorted(q for a, b in blocks_of(got) for q in range(a, b)) != sorted(cpos(q) for q in want) or got.strand is not rel_strand:
                 return False
             # a chunk-relative answer: it lives on the chunk and lifts back to the chromosome
             up = got.lift_over_to_first_ancestor_of_type(SequenceType.CHROMOSOME)
-            if sorted(q for a, b in blocks_of(up) for q in range(a, b)) != want:
+            if sorted(q for a, b in blocks_of(up) for q in range(a, b)) != want or up.strand is not strand:
                 return False
-            exp = "".join(GENOME40[q - w] for q in want)
-            if strand is MINUS:
+            exp = "".join(GENOME40[c] for c in sorted(cpos(q) for q in want))
+            if rel_strand is MINUS:
                 exp = "".join({"A": "T", "C": "G", "G": "C", "T": "A"}[c] for c in reversed(exp))
             if str(got.extract_sequence()) != exp:
                 return False
@@ -640,6 +643,13 @@ def obligations(tier):
                                 "touch (0-bp gap, a modelled frameshift) stay separate blocks whatever the window cuts" % kind,
                            bounds="%d blocks with gaps >= 0 (adjacent allowed), symbolic coordinates and window start, chunk length %d" % (k, L),
                            examples=[ex, dict(ex, w=105), dict(ex, g1=2)]))
+        for shape in ("e0", "both"):
+            out.append(Obl("utr_on_minus_chunk_%s_%s" % (shape, sn), utr_on_chunk(shape, strand, MINUS), dict(s0=int, l0=int, g1=int, l1=int, ca=int, cb=int, w=int),
+                           (lambda shape, pre0: (lambda **kw: pre0(**kw) and kw["s0"] == 100 and (kw["l0"] == 5 or not quick)))(shape, utr_pre(shape)), budget=900, cost=90,
+                           desc="the same on a chunk that is placed on the MINUS strand of the chromosome (chunk coordinates run backwards, the transcript's strand is "
+                                "reversed in the chunk view): UTRs = chromosome UTR bases inside the window, with the chunk's own sequence",
+                           bounds="as utr_on_chunk with first start 100%s, CDS in exon(s) %s, minus-strand chunk (realised)" % (", first exon 5 nt" if quick else "", shape),
+                           examples=[dict(s0=100, l0=5, g1=3, l1=6, ca=2, cb=1, w=98), dict(s0=100, l0=5, g1=3, l1=6, ca=1, cb=1, w=104)]))
         for shape in ("e0", "e1", "both"):
             out.append(Obl("utr_on_chunk_%s_%s" % (shape, sn), utr_on_chunk(shape, strand), dict(s0=int, l0=int, g1=int, l1=int, ca=int, cb=int, w=int),
                            utr_pre(shape), budget=900, cost=90,
